@@ -97,7 +97,8 @@ def main():
             seen.add(vp.digest(h["labels"]))
     R.coverage["distinct_nontrivial"] = len(seen)
     R.coverage["rule"] = ("histories of calls (explicit subsets, single validators, all, empty = active set; repeats; three duty kinds; several epochs), reorgs, "
-                          "InvalidateCache (prompt, delayed, spurious), Trim, UpdateActiveValIndices, caller-side mutation of received answers and aliasing probes against "
+                          "InvalidateCache (prompt, delayed, spurious), Trim, UpdateActiveValIndices, caller-side mutation of received answers, callers that keep ONE index buffer with spare capacity "
+                          "across calls and rewrite it in place between calls (the request seen by the model is the buffer content at call time), and aliasing probes of outputs and of the request slice against "
                           "eth2wrap.NewDutiesCache with a scripted beacon client in a synctest bubble (kinds: corpus-*, seq = no overlap, conc = calls held inside the beacon request "
                           "while other operations run, dup = requests naming an index twice); every history ends with a read-out of all validators per kind and epoch; "
                           "non-trivial = at least one full cache hit, one partial hit (amend path) and one invalidation or trim; distinct by hash of the observed label sequence")
@@ -114,6 +115,8 @@ def main():
         "stores_refused": sum(h["refused"] for h in hs),
         "histories_with_overlap": sum(1 for h in hs if h.get("overlap")),
         "alias_probes": sum(sum(1 for o in h["script"] if o["op"] == "probe") for h in hs),
+        "request_buffer_probes": sum(sum(1 for o in h["script"] if o["op"] == "bufprobe") for h in hs),
+        "calls_through_a_reused_caller_buffer": sum(sum(1 for o in h["script"] if o["op"] == "call" and o.get("b")) for h in hs),
     }
     R.add_samples([{"script": h["script"], "labels": h["labels"]} for h in hs if h.get("nontrivial") and len(h["labels"]) < 60][:2])
 
@@ -130,7 +133,10 @@ def main():
     for h in hs:
         for a in h.get("alias") or []:
             kind = a.split(":", 1)[0]
-            violation("alias:cache:%s" % kind, "a caller's mutation of the answer it received is served to the next caller (%s)" % a, h)
+            if kind.startswith("request-slice"):
+                violation("alias:cache:%s" % kind, "the cache's record of requested indices lives in a caller's index slice: the caller reusing its own buffer changes later answers (%s)" % a, h)
+            else:
+                violation("alias:cache:%s" % kind, "a caller's mutation of the answer it received is served to the next caller (%s)" % a, h)
         for e in h.get("errors") or []:
             violation("harness-anomaly", e, h)
 
